@@ -346,8 +346,14 @@ class Func:
                 continue
             for p in self.preds.get(b['id'], []):
                 pt = self.blocks[p].get('term')
-                if pt and pt.get('c') == 'BinaryOperator' and pt.get('op') in ('&&', '||'):
-                    t['vshape'] = 1
+                ps = self.blocks[p]['succ']
+                if pt and pt.get('c') == 'BinaryOperator' and pt.get('op') in ('&&', '||') and len(ps) == 2:
+                    # value shape: the short-circuit edge of the operand block (true for ||, false for &&) enters the
+                    # statement's block, which then branches on the materialised value.  In the ordinary control-flow
+                    # shape that edge goes straight to the then / else target and only the other edge comes here.
+                    short = ps[0] if pt['op'] == '||' else ps[1]
+                    if short == b['id']:
+                        t['vshape'] = 1
 
     @property
     def has_cfg(self):
